@@ -32,6 +32,7 @@ type LoopSpec struct {
 	Decreases  *Clause
 	Modifies   []SExpr
 	HasMod     bool
+	FrameOld   bool // objects that existed at function entry are not modified by this loop (checked)
 }
 
 type LetDef struct {
@@ -278,6 +279,15 @@ func (ss *SpecSet) ParseSpecFile(path, defaultPkg string) {
 				}
 			case "loop":
 				fs := strings.SplitN(rest, " ", 3)
+				if len(fs) == 2 && fs[1] == "frame-old" {
+					if n, err := strconv.Atoi(fs[0]); err == nil {
+						if cur.Loops[n] == nil {
+							cur.Loops[n] = &LoopSpec{}
+						}
+						cur.Loops[n].FrameOld = true
+						continue
+					}
+				}
 				if len(fs) < 3 {
 					errf(l, "bad loop clause")
 					continue
